@@ -239,6 +239,60 @@ typedef struct {
 } c06b_out;
 void c06b_run(const c06b_case *c, c06b_out *out);
 
+/* ---------------- C16: I/O tasks ---------------- */
+#define C16_MAX_PIECES 16
+#define C16_MAX_CB 96
+typedef struct {
+	uint16_t len;
+	uint8_t pause;		/* before this piece: 0 none, 1 short (<= T/40), 2 long (5*T) */
+} c16_piece;
+typedef struct {
+	uint8_t dir;		/* 0 receive task (TP_EV_READ), 1 send task (TP_EV_WRITE) */
+	uint8_t handler;	/* 0 tp_task_sr_handler on a stream socketpair, 1 tp_task_notify_handler (read readiness only) */
+	uint16_t buf_size, win_off, win_len;
+	uint16_t used0;		/* io_buf.used before the start */
+	uint8_t ev_flags;	/* 0 persistent, 1 TP_F_ONESHOT, 2 TP_F_DISPATCH */
+	uint8_t after_every_read;
+	uint16_t timeout_ms;	/* 0 = none */
+	uint8_t start_ex_direct;/* tp_task_start_ex(shedule_first_io = 0): first transfer attempted inside the start call */
+	uint8_t prequeue;	/* number of leading pieces written before the task is started */
+	uint8_t npieces;
+	c16_piece pieces[C16_MAX_PIECES];
+	uint8_t end;		/* peer at the end: 0 stays open, 1 close, 2 shutdown(SHUT_WR) */
+	uint8_t cb_policy;	/* 0 CONTINUE until window full / eof / error; 1 after the first callback: tp_task_stop + NONE;
+				 * 2 after the first callback: tp_task_destroy + NONE; 3 first callback: tp_task_enable(0) + NONE */
+	uint8_t rearm;		/* when the window is full: reset it (offset = win_off, transfer_size = win_len) and CONTINUE */
+	uint32_t sndbuf;	/* SO_SNDBUF of the task's socket for send tasks (0 = default) */
+	tp_plans plans;
+} c16_scn;
+typedef struct {
+	int32_t error;
+	uint32_t eof;
+	uint64_t transfered;
+	uint64_t used, offset, tr_size;
+	uint32_t log_idx;
+	uint8_t on_owner;	/* ran on the owning pool thread */
+	uint8_t in_start;	/* ran synchronously inside tp_task_start_ex() */
+	int32_t ret;		/* what the callback returned */
+	uint64_t t_us;		/* harness clock, gates (never decides) the timeout assertions */
+} c16_cb;
+typedef struct {
+	int setup_rc, start_rc, hang;
+	uint32_t ncb;
+	c16_cb cb[C16_MAX_CB];
+	uint32_t cb_after_stop;		/* callbacks counted after stop/destroy/disable returned on the owner thread */
+	uint64_t sent_total;		/* bytes the peer wrote (receive task) */
+	uint64_t peer_received;		/* bytes the peer read (send task) */
+	uint32_t peer_mismatch;		/* send task: first byte offset at which the peer's data differs from the window (UINT32_MAX none) */
+	uint64_t max_gap_us;		/* longest silence the harness measured between two arrivals while no long pause was requested */
+	uint64_t run_us;		/* from the start of the task until the harness saw it stop (or gave up waiting) */
+	uint8_t buf_image[4096 + 64];	/* 32 guard bytes + buffer + 32 guard bytes after the run */
+	uint64_t final_used, final_offset, final_tr;
+	tp_res_stats res;
+	uint32_t base_live_fds;
+} c16_out;
+void c16_run(const c16_scn *scn, c16_out *out);
+
 #ifdef __cplusplus
 }
 #endif
